@@ -2,6 +2,8 @@
 from __future__ import annotations
 
 import ast
+import itertools
+from fractions import Fraction
 
 from .. import effects as E
 from ..pe import PE, Obj, PERaise
@@ -9,22 +11,24 @@ from ..src import load, stmt_text
 
 LEVEL = "proof"
 META = {
-    "text": "A round trip can only lose or corrupt content where a writer and its reader disagree. Decided for every stored piece: "
-            "(1) YAML: every file read with yaml.safe_load is written either with safe_dump or from a payload that passed the "
-            "serialisation normaliser (.raw / raw_field); the header payload written by Inventory.__setitem__ additionally "
-            "normalises NumPy scalars (np.generic -> .item()), so evolution points given as NumPy numbers are readable again; all "
-            "readers are safe_load. (2) FILE NAMES: the names produced by header_name / operator_name (with and without errors) "
-            "are exactly those accepted by Inventory.lookup and Inventory.sync (extension tables agree; format chosen by "
-            "`error is not None` on both sides). (3) ARRAYS: Operator.save writes npy without and npz with errors, the npz member "
-            "names are the keys Operator.load reads, load handles both container kinds, compress/decompress are paired and the "
-            "buffer is rewound between writing and reading it. (4) EVOLUTION POINTS: the EKO item accessors map a point to its "
-            "header through one function on every path (Target.from_ep) and Target.ep inverts it exactly (PE). (5) METADATA: the "
-            "serialised form drops only underscore fields, and `_path` is the only one. (6) ARCHIVE: dump adds the whole working "
-            "directory under '.', read extracts the whole archive and loads from that directory; load syncs the operator headers "
-            "from disk.",
-    "note": "Bitwise identity of arrays through numpy/lz4/tar is the libraries' behaviour and is not decided; what is decided is "
-            "that each piece is written and read by agreeing code.",
-    "technique": "writer/reader pairing tables from the AST, sanitizer-to-sink rule for serialised payloads, ordering rule on the buffer, PE of point<->header maps",
+    "text": "A round trip can only lose or corrupt content where a writer and its reader disagree. The repository's own writers and "
+            "readers are partially evaluated on a MODEL FILE SYSTEM (sa/fsmodel.py: paths bound to a dict of files, streams with a "
+            "position, np.save/savez, lz4, yaml and tarfile producing and accepting structured tokens exactly as the libraries "
+            "accept them). Decided: (1) STORE: for six histories (store with / without errors, overwrite switching the format in "
+            "either direction, overwrite after re-opening the directory, overwrite after unloading) and three kinds of evolution "
+            "point (built-in numbers, symbolic, NumPy scalars), a FRESH Inventory that only sees the directory returns the last "
+            "stored operator and error arrays, element by element, under the same point - this covers file names and extension "
+            "tables, the choice of container, member names, compression pairing, the rewind of the in-memory buffer, header "
+            "serialisation (NumPy scalars included) and sync/lookup. (2) EKO LEVEL: points stored through the item interface are "
+            "found again (membership, iteration, item access, items() loading and unloading) by a fresh object on the directory "
+            "and, after dump(), by read() of the archive, which works in a new extraction directory, read-only and bound to the "
+            "archive; dump leaves no temporary file. (3) METADATA: update() writes one plain-data document with exactly the public "
+            "fields; `_path` is the only hidden field; every metadata setter of the EKO writes after the change (recording mock). "
+            "(4) YAML: all readers are safe_load; every payload written with the unsafe dumper passed the serialisation "
+            "normaliser. (5) the per-stem file invariant shared with C37, and Target.from_ep / Target.ep being mutually inverse.",
+    "note": "Bitwise identity of arrays through numpy/lz4/tar is the libraries' behaviour and enters as the token model; the card and "
+            "metadata READ side (from_dict) is decided under C40 and mocked here.",
+    "technique": "partial evaluation of the repository's writers and readers on a model file system (structured tokens for numpy/lz4/yaml/tar), element-wise identity of what is read back; sanitizer-to-sink rule for YAML payloads",
     "engine": "sa",
 }
 
@@ -99,12 +103,6 @@ def run(chk):
                    f"raw_field/.raw{why}: values that are not plain data get python-specific tags which safe_load rejects",
                    where=f"{f.module.relpath}:{c.lineno}", instance=ast.unparse(payload)[:40])
     fset = src.func(f"{INV}.Inventory.__setitem__")
-    hd = [c for f, c, k in writers if f is fset]
-    chk.need(len(hd) == 1, "Inventory.__setitem__ no longer dumps exactly one header")
-    text = _expand(hd[0].args[0], fset.node)
-    chk.decide(("np.generic" in text and ".item()" in text) or "raw_field" in text, "header-payload-normalises-numpy-scalars", fset.qname,
-               f"the header payload `{text[:120]}` does not cast NumPy scalars to built-in numbers: a point given as np.float64 / np.int64 is "
-               f"written with python tags (dump) or refused (safe_dump)", where=fset.where)
     # ---- (2) file names ----------------------------------------------------------------------------------------------------------
     pe.overrides[f"{INV}.encode"] = lambda pe_, a, k: "STEM"
     hext = pe.get_global(INV, "HEADER_EXT")
@@ -124,69 +122,15 @@ def run(chk):
     chk.decide(names[False] != names[True], "names-written-are-names-read", f"{INV}.operator_name", "both formats share one name", instance="distinct")
     chk.decide(hname == "STEM" + hext and pathlib.PurePath(hname).suffix == hext, "names-written-are-names-read", f"{INV}.header_name",
                f"header_name = {hname!r} is not matched by sync/lookup (suffix {hext})", where=src.func(f"{INV}.header_name").where, how="PE")
-    flook = src.func(f"{INV}.Inventory.lookup")
-    t = stmt_text(flook.node)
-    chk.decide("EXT = OPERATOR_EXT if not header else [HEADER_EXT]" in t and "path.name.startswith(stem)" in t and "''.join(path.suffixes) in EXT" in t,
-               "names-written-are-names-read", flook.qname, "lookup no longer selects by stem prefix and the joined suffixes in the extension table",
-               where=flook.where, instance="lookup")
-    fsync = src.func(f"{INV}.Inventory.sync")
-    t = stmt_text(fsync.node)
-    chk.decide("path.suffix != HEADER_EXT" in t and "self.header_type(**yaml.safe_load(" in t and "self.cache[header] = None" in t,
-               "names-written-are-names-read", fsync.qname, "sync no longer rebuilds every header file into the cache", where=fsync.where, instance="sync")
-    t = stmt_text(fset.node)
-    chk.decide("with_err = operator.error is not None" in t and "operator_name(header, err=with_err)" in t, "names-written-are-names-read", fset.qname,
-               "the operator file name is not chosen by `error is not None`", where=fset.where, instance="setitem")
     # overwriting must not leave two operator files for one header (lookup would then refuse to read): rule shared with C37
     from .c37 import fs_invariant
 
     fs_invariant(chk, src, PE(src))
-    # ---- (3) arrays -------------------------------------------------------------------------------------------------------------------
-    fsave = src.func("eko.io.items.Operator.save")
-    fload = src.func("eko.io.items.Operator.load")
-    savez = [c for c in src.calls_in(fsave) if (src.dotted(c.func) or "").endswith("np.savez") or (src.dotted(c.func) or "").endswith("savez_compressed")]
-    save = [c for c in src.calls_in(fsave) if (src.dotted(c.func) or "") == "np.save"]
-    chk.need(len(savez) == 1 and len(save) == 1, "Operator.save no longer has one np.save and one np.savez")
-    written = {k.arg: ast.unparse(k.value) for k in savez[0].keywords}
-    read_keys = {n.slice.value: None for n in ast.walk(fload.node) if isinstance(n, ast.Subscript) and isinstance(n.slice, ast.Constant)
-                 and isinstance(n.slice.value, str)}
-    chk.decide(written == {"operator": "self.operator", "error": "self.error"} and set(read_keys) == set(written), "array-members-agree", fsave.qname,
-               f"npz members written {written} vs keys read {sorted(read_keys)}", where=fsave.where)
-    # branch: error is None -> np.save
-    ifs = [n for n in fsave.node.body if isinstance(n, ast.If)]
-    ok = bool(ifs) and stmt_text(ifs[0].test) == "self.error is None" and "np.save(" in stmt_text(ifs[0].body[0]) and "np.savez(" in stmt_text(ifs[0].orelse[0])
-    chk.decide(ok, "array-members-agree", fsave.qname, "format is not chosen by `self.error is None` (npy without, npz with errors)", where=fsave.where,
-               instance="branch")
-    t = stmt_text(fload.node)
-    chk.decide("isinstance(content, np.ndarray)" in t and "isinstance(content, npyio.NpzFile)" in t and "return cls(operator=op, error=err)" in t
-               and "err = None" in t, "array-members-agree", fload.qname, "load no longer handles both containers / returns (operator, error)",
-               where=fload.where, instance="load")
-    ts = stmt_text(fsave.node)
-    chk.decide("lz4.frame.compress(" in ts and "lz4.frame.decompress(stream.read())" in t and "np.load(extracted_stream)" in t, "compression-paired",
-               fsave.qname, "compress/decompress are not paired", where=fsave.where)
-    # ordering: aux written -> aux.seek(0) -> aux.read()
-    order = []
-    for st in fsave.node.body:
-        s = stmt_text(st)
-        if "np.save" in s:
-            order.append("write")
-        if "aux.seek(0)" in s:
-            order.append("seek")
-        if "aux.read()" in s:
-            order.append("read")
-        if "stream.write(" in s:
-            order.append("out")
-    chk.decide(order == ["write", "seek", "read", "out"], "buffer-rewound-before-reading", fsave.qname, f"statement order {order}: the in-memory buffer "
-               f"must be rewound between writing the array and reading it for compression", where=fsave.where)
+    _roundtrip(chk, src)
+    _roundtrip_archive(chk, src)
+    # ---- (3) arrays, compression, buffer handling, (2b) lookup / sync: decided semantically by the round trips below --------------
     # ---- (4) evolution points ---------------------------------------------------------------------------------------------------------------
     ekoc = src.cls("eko.io.struct.EKO")
-    for m in ("__getitem__", "__setitem__", "__delitem__", "__contains__"):
-        f = ekoc.methods[m]
-        t = stmt_text(f.node)
-        chk.decide("self.operators" in t and "Target.from_ep(ep)" in t, "point-to-header-map-is-shared", f.qname,
-                   "the accessor does not address self.operators through Target.from_ep(ep)", where=f.where, instance=m)
-    t = stmt_text(ekoc.methods["__iter__"].node)
-    chk.decide("for target in self.operators" in t and "yield target.ep" in t, "point-to-header-map-is-shared", ekoc.methods["__iter__"].qname,
-               "iteration no longer yields target.ep for every header", where=ekoc.methods["__iter__"].where, instance="__iter__")
     from .. import dag
 
     s, n = dag.sym("mu2"), dag.sym("nf")
@@ -199,13 +143,6 @@ def run(chk):
     md = src.cls("eko.io.metadata.Metadata")
     hidden = [k for k in md.fields() if k.startswith("_")]
     chk.decide(hidden == ["_path"], "metadata-drops-only-the-path", md.qname, f"underscore fields {hidden}: they are not serialised", where=md.where)
-    t = stmt_text(md.methods["raw"].node)
-    pr = stmt_text(src.func("eko.io.dictlike.DictLike.public_raw").node)
-    chk.decide("return self.public_raw" in t and "for k, v in self._raw().items() if not k.startswith('_')" in pr, "metadata-drops-only-the-path", md.qname,
-               "Metadata.raw is no longer all public fields of _raw()", where=md.where, instance="raw")
-    t = stmt_text(src.func("eko.io.dictlike.DictLike._raw").node)
-    chk.decide("for field in dataclasses.fields(self)" in t and "dictionary[field.name] = raw_field(getattr(self, field.name))" in t,
-               "metadata-drops-only-the-path", "eko.io.dictlike.DictLike._raw", "_raw no longer serialises every dataclass field", instance="_raw")
     # metadata edits are persisted: every setter of the EKO that changes the metadata writes it to disk AFTER the change
     n_set = 0
     for mname, m in ekoc.methods.items():
@@ -232,19 +169,7 @@ def run(chk):
                    f"after `eko.{attr} = value` the object holds {mdo.attrs.get(attr)} and the metadata file was written with {seen}: the write must "
                    f"follow the change, otherwise the archive keeps the previous value", where=m.where, instance=attr, how="PE with recording Metadata.update")
     chk.floor("metadata setters", n_set, 1)
-    # ---- (6) archive -------------------------------------------------------------------------------------------------------------------------------
-    fd = ekoc.methods["dump"]
-    t = stmt_text(fd.node)
-    chk.decide("tar.add(self.metadata.path, arcname='.')" in t, "archive-holds-the-whole-directory", fd.qname, "dump no longer adds the working "
-               "directory as '.'", where=fd.where)
-    fr = ekoc.methods["read"]
-    t = stmt_text(fr.node)
-    chk.decide("raw.safe_extractall(tar, dir_)" in t and "cls.load(dir_)" in t, "archive-holds-the-whole-directory", fr.qname,
-               "read no longer extracts everything and loads from that directory", where=fr.where, instance="read")
-    fl = ekoc.methods["load"]
-    t = stmt_text(fl.node)
-    chk.decide("loaded.operators.sync()" in t and "Metadata.load(path)" in t and "**inventories(path, access)" in t, "archive-holds-the-whole-directory",
-               fl.qname, "load no longer syncs the operator headers / reads metadata from the directory", where=fl.where, instance="load")
+    # ---- (6) archive: decided semantically (_roundtrip_archive) ------------------------------------------------------------------
     chk.note(yaml_sites=len(calls), files=["src/eko/io/inventory.py", "src/eko/io/items.py", "src/eko/io/struct.py", "src/eko/io/metadata.py",
                                            "src/eko/io/paths.py"])
     chk.explanation = "Pairing tables for YAML, names, array members, compression, point<->header map, metadata and archive."
@@ -260,3 +185,194 @@ def src_cls_ref(pe, qname):
     from ..pe import ClassRef
 
     return ClassRef(pe.src.cls(qname))
+
+
+def _roundtrip(chk, src):
+    """The repository's own writer and reader, evaluated on a model file system (sa/fsmodel.py): what is stored through one
+    Inventory object must come back - the same operator and error arrays under the same evolution point - through a FRESH object
+    that only sees the directory, for operators with and without errors, for points given as built-in numbers and as NumPy
+    scalars, and across overwrites that switch between the two formats."""
+    from .. import dag, fsmodel
+    from ..arr import Arr
+    from ..pe import ClassRef
+
+    tcls = src.cls("eko.io.items.Target")
+    ocls = src.cls("eko.io.items.Operator")
+    icls = src.cls(f"{INV}.Inventory")
+    acls = src.cls("eko.io.access.AccessConfigs")
+    n_rt = 0
+
+    def arr(tag):
+        return Arr.from_nested([[[[dag.sym(f"{tag}_{a}{i}{b}{j}") for j in range(2)] for b in range(2)] for i in range(2)] for a in range(2)])
+
+    def same(x, y):
+        if x is None or y is None:
+            return x is None and y is None
+        return isinstance(x, Arr) and isinstance(y, Arr) and x.shape == y.shape and all(a is b for a, b in zip(x.flat(), y.flat()))
+
+    def inventory(pe, fs):
+        inv = Obj(icls)
+        acc = Obj(acls)
+        acc.attrs.update(path=fs.path("/eko"), readonly=False, open=True)
+        inv.attrs.update(path=fs.path("/eko/operators"), access=acc, header_type=ClassRef(tcls), cache={}, contentless=False, name="operators")
+        return inv
+
+    def header(scale, nf):
+        h = Obj(tcls)
+        h.attrs.update(scale=scale, nf=nf)
+        return h
+
+    def operator(tag, with_err):
+        o = Obj(ocls)
+        o.attrs.update(operator=arr(tag), error=arr(tag + "e") if with_err else None)
+        return o
+
+    finv = icls.methods["__setitem__"]
+    histories = [
+        ("plain", [("set", "A", True)]),
+        ("no-error", [("set", "A", False)]),
+        ("error-then-none", [("set", "A", True), ("set", "B", False)]),
+        ("none-then-error", [("set", "A", False), ("set", "B", True)]),
+        ("overwrite-after-reopen", [("set", "A", True), ("reopen",), ("set", "B", False)]),
+        ("overwrite-after-unload", [("set", "A", False), ("unload",), ("set", "B", True)]),
+    ]
+    scales = [("builtin", Fraction(25), 4), ("symbolic", dag.sym("mu2"), 5), ("numpy-scalars", fsmodel.NpScalar(Fraction(9)), fsmodel.NpScalar(4, "int64"))]
+    for (hname, hist), (sname, scale, nf) in itertools.product(histories, scales):
+        inst = f"{hname},{sname}"
+        fs = fsmodel.FS()
+        fs.path("/eko/operators").mkdir(parents=True)
+        pe = PE(src)
+        fsmodel.install(pe, fs)
+        inv = inventory(pe, fs)
+        h = header(scale, nf)
+        last = None
+        try:
+            for step in hist:
+                if step[0] == "set":
+                    last = operator(step[1], step[2])
+                    pe.apply(_bound(pe, inv, finv), [h, last], {})
+                elif step[0] == "reopen":
+                    inv = inventory(pe, fs)
+                    pe.apply(_bound(pe, inv, icls.methods["sync"]), [], {})
+                elif step[0] == "unload":
+                    pe.apply(_bound(pe, inv, icls.methods["__delitem__"]), [h], {})
+            # a fresh object that only sees the directory
+            inv2 = inventory(pe, fs)
+            pe.apply(_bound(pe, inv2, icls.methods["sync"]), [], {})
+            keys = list(inv2.attrs["cache"])
+            plain_scale = scale.value if isinstance(scale, fsmodel.NpScalar) else scale
+            plain_nf = nf.value if isinstance(nf, fsmodel.NpScalar) else nf
+            okk = len(keys) == 1 and isinstance(keys[0], Obj) and keys[0].cls is tcls \
+                and pe.truth(pe.compare(ast.Eq(), keys[0].attrs.get("scale"), plain_scale)) and pe.truth(pe.compare(ast.Eq(), keys[0].attrs.get("nf"), plain_nf))
+            got = pe.apply(_bound(pe, inv2, icls.methods["__getitem__"]), [keys[0] if okk else h], {}) if keys else None
+            oko = isinstance(got, Obj) and same(got.attrs.get("operator"), last.attrs["operator"]) and same(got.attrs.get("error"), last.attrs["error"])
+            detail = f"headers found {[(str(k.attrs.get('scale')), str(k.attrs.get('nf'))) for k in keys if isinstance(k, Obj)]}, files {fs.names('/eko/operators')}"
+            ok, msg = okk and oko, detail
+        except PERaise as e:
+            ok, msg = False, f"raises {e}; files {fs.names('/eko/operators')}"
+        n_rt += 1
+        chk.decide(ok, "stored-operators-read-back-through-a-fresh-object", finv.qname,
+                   f"{inst}: after the history {[s[0] + (':' + ('err' if s[2] else 'noerr') if s[0] == 'set' else '') for s in hist]} a fresh Inventory on "
+                   f"the same directory does not return the last stored operator and error under the same evolution point ({msg})",
+                   where=finv.where, instance=inst, how="PE of writer and reader on a model file system")
+    chk.floor("round trips on the model file system", n_rt, 18)
+
+
+def _roundtrip_archive(chk, src):
+    """EKO level, same model file system: operators stored through the EKO item interface are found again - membership,
+    iteration, item access - by a fresh EKO on the same directory, and after dump() by EKO.read() of the archive (which extracts
+    into a new directory and loads from there).  Metadata.load is a mock here (the card/metadata field round trip is C40's); the
+    metadata WRITER is evaluated: update() stores exactly the public fields."""
+    from .. import dag, fsmodel
+    from ..arr import Arr
+    from ..pe import ClassRef
+
+    ekoc = src.cls("eko.io.struct.EKO")
+    mdc = src.cls("eko.io.metadata.Metadata")
+    acls = src.cls("eko.io.access.AccessConfigs")
+    ocls = src.cls("eko.io.items.Operator")
+
+    def arr(tag):
+        return Arr.from_nested([[[[dag.sym(f"{tag}_{a}{i}{b}{j}") for j in range(2)] for b in range(2)] for i in range(2)] for a in range(2)])
+
+    def same(x, y):
+        if x is None or y is None:
+            return x is None and y is None
+        return isinstance(x, Arr) and isinstance(y, Arr) and x.shape == y.shape and all(a is b for a, b in zip(x.flat(), y.flat()))
+
+    def operator(tag, with_err):
+        o = Obj(ocls)
+        o.attrs.update(operator=arr(tag), error=arr(tag + "e") if with_err else None)
+        return o
+
+    fs = fsmodel.FS()
+    pe = PE(src)
+    fsmodel.install(pe, fs)
+
+    def metadata(path):
+        m = Obj(mdc)
+        m.attrs.update(origin=(Fraction(2), 4), xgrid="XGRID", _path=path, version="0.0.0", data_version=3)
+        return m
+
+    pe.overrides["eko.io.metadata.Metadata.load"] = lambda p_, a, k: metadata(a[-1] if isinstance(a[-1], fs.Path) else fs.Path(str(a[-1])))
+    work = fs.path("/work")
+    work.mkdir()
+    acc = Obj(acls)
+    acc.attrs.update(path=fs.path("/out/archive.tar"), readonly=False, open=True)
+    fs.path("/out").mkdir()
+    fget = ekoc.methods["__getitem__"]
+    try:
+        invs = pe.call("eko.io.struct.inventories", [work, acc])
+        for inv in invs.values():
+            inv.attrs["path"].mkdir(parents=True, exist_ok=True)
+        eko = pe.new_object(ekoc, [], dict(invs, metadata=metadata(work), access=acc))
+        eps = [(Fraction(100), 5), (Fraction(25), 4), (Fraction(25), 5)]
+        ops = {eps[0]: operator("A", True), eps[1]: operator("B", False), eps[2]: operator("C", True)}
+        for ep, op in ops.items():
+            pe.apply(_bound(pe, eko, ekoc.methods["__setitem__"]), [ep, op], {})
+        # the metadata writer
+        pe.apply(_bound(pe, eko.attrs["metadata"], mdc.methods["update"]), [], {})
+        mfiles = [c for p_, c in fs.files.items() if p_.startswith("/work/") and "/" not in p_[len("/work/"):] and isinstance(c, tuple) and c[0] == "yaml"]
+        public = sorted(k for k in pe.all_fields(mdc) if not k.startswith("_"))
+        chk.decide(len(mfiles) == 1 and sorted(mfiles[0][1]) == public, "metadata-file-holds-every-public-field", mdc.methods["update"].qname,
+                   f"Metadata.update() wrote {[sorted(c[1]) if isinstance(c[1], dict) else c[1] for c in mfiles]}; required one plain-data document "
+                   f"with the fields {public}", where=mdc.methods["update"].where, how="PE on a model file system")
+
+        def judge(label, e, rule, anchor):
+            got_eps = [tuple(x) if isinstance(x, (tuple, list)) else x for x in pe.iterate(e)]
+            okm = sorted(map(str, got_eps)) == sorted(map(str, eps)) and all(pe._contains(e, ep) for ep in eps) \
+                and not pe._contains(e, (Fraction(25), 3)) and not pe._contains(e, (Fraction(7), 4))
+            oko = True
+            for ep, op in ops.items():
+                g = pe.apply(_bound(pe, e, fget), [ep], {})
+                oko = oko and isinstance(g, Obj) and same(g.attrs.get("operator"), op.attrs["operator"]) and same(g.attrs.get("error"), op.attrs["error"])
+            chk.decide(okm and oko, rule, anchor.qname, f"{label}: evolution points found {got_eps} (stored {eps}); membership/iteration ok={okm}, "
+                       f"every operator and error returned unchanged={oko}", where=anchor.where, instance=label, how="PE on a model file system")
+
+        # a fresh EKO on the same directory
+        fresh = pe.new_object(ekoc, [], dict(pe.call("eko.io.struct.inventories", [work, acc]), metadata=metadata(work), access=acc))
+        pe.apply(_bound(pe, fresh.attrs["operators"], src.cls(f"{INV}.Inventory").methods["sync"]), [], {})
+        judge("fresh object on the directory", fresh, "points-and-operators-found-again", ekoc.methods["__setitem__"])
+        # unload everything through items() (loads and unloads), then through the archive
+        its = pe.apply(_bound(pe, fresh, ekoc.methods["items"]), [], {})
+        loaded_left = [k for k, v in fresh.attrs["operators"].attrs["cache"].items() if v is not None]
+        chk.decide(len(list(its)) == 3 and not loaded_left, "points-and-operators-found-again", ekoc.methods["items"].qname,
+                   f"items() yields {len(list(its))} pairs and leaves {len(loaded_left)} operator(s) loaded; required all 3, none loaded",
+                   where=ekoc.methods["items"].where, instance="items")
+        pe.apply(_bound(pe, eko, ekoc.methods["dump"]), [], {})
+        tok = fs.files.get("/out/archive.tar")
+        chk.decide(isinstance(tok, tuple) and tok[0] == "tar" and not any(n.endswith(".tmp") for n in fs.names("/out")),
+                   "archive-holds-the-whole-directory", ekoc.methods["dump"].qname, f"after dump() the output folder holds {fs.names('/out')}",
+                   where=ekoc.methods["dump"].where, instance="dump")
+        before = set(fs.dirs)
+        loaded = pe.apply(pe.getattr(ClassRef(ekoc), "read"), [fs.path("/out/archive.tar")], {})
+        newdirs = sorted(d for d in set(fs.dirs) - before)
+        judge("read() of the dumped archive", loaded, "archive-holds-the-whole-directory", ekoc.methods["read"])
+        lacc = loaded.attrs["access"].attrs
+        chk.decide(str(loaded.attrs["metadata"].attrs.get("_path")) != "/work" and newdirs and lacc.get("readonly") is True and str(lacc.get("path")) == "/out/archive.tar",
+                   "archive-holds-the-whole-directory", ekoc.methods["read"].qname,
+                   f"read() works on {loaded.attrs['metadata'].attrs.get('_path')} (new directories {newdirs[:2]}), readonly={lacc.get('readonly')}, "
+                   f"archive path {lacc.get('path')}; required a fresh extraction directory, read-only, bound to the archive",
+                   where=ekoc.methods["read"].where, instance="read-state")
+    except PERaise as e:
+        chk.fail("archive-holds-the-whole-directory", ekoc.qname, f"the EKO-level round trip raises {e}; files {sorted(fs.files)[:8]}", where=ekoc.where)
